@@ -58,7 +58,7 @@ Definition elem_addr (sh : shape) (r : mrec) : bool :=
   if sh_elem_ptr sh then negb (m_nil r)
   else match sh_cont sh with CArray => sh_outer_ptr sh | _ => true end.
 
-Inductive table := TRecs | TBosses | TKids | TPets.
+Inductive table := TRecs | TBosses | TKids | TPets | TKeepers.
 Inductive verb := VInsert | VUpdate | VDelete | VSelect.
 Definition row := (table * Z * Z)%type.     (* table, tag, val *)
 
@@ -84,7 +84,7 @@ Definition hook_eqb (a b : hook) : bool :=
   | _, _ => false
   end.
 Definition table_eqb (a b : table) : bool :=
-  match a, b with TRecs, TRecs | TBosses, TBosses | TKids, TKids | TPets, TPets => true | _, _ => false end.
+  match a, b with TRecs, TRecs | TBosses, TBosses | TKids, TKids | TPets, TPets | TKeepers, TKeepers => true | _, _ => false end.
 Definition verb_eqb (a b : verb) : bool :=
   match a, b with VInsert, VInsert | VUpdate, VUpdate | VDelete, VDelete | VSelect, VSelect => true | _, _ => false end.
 Definition err_eqb (a b : err) : bool :=
@@ -377,9 +377,33 @@ Record assocs := mk_assocs {
   a_tys : ty * ty * ty;         (* Boss, Kid, Pet *)
   a_boss : list mrec;           (* the (distinct) belongs-to values of all records, in record order *)
   a_kids : list mrec;           (* all has-many values (slice of values), concatenated in record order *)
-  a_pets : list mrec            (* all has-many values (slice of pointers) *)
+  a_pets : list mrec;           (* all has-many values (slice of pointers) *)
+  (* a cyclic in-memory graph: every Kid holds a belongs-to pointer to a Keeper whose has-many Wards are
+     those very Kids; the keepers are saved from inside the kids' create, their Wards are already visited *)
+  a_keeper_ty : ty;
+  a_keepers : list mrec
 }.
-Definition no_assocs (tys : ty * ty * ty) := mk_assocs tys [] [] [].
+Definition no_assocs (tys : ty * ty * ty) := mk_assocs tys [] [] [] (fst (fst tys)) [].
+
+(* the create of the Kids when they carry belongs-to values of their own: SaveBeforeAssociations of the
+   nested create saves the (distinct) keepers between the kids' before-hooks and their INSERT *)
+Definition save_keepers (c : cx) (kt : ty) (keepers : list mrec) (s : S) : S :=
+  if is_nil (s_err s) then save_assoc c kt TKeepers false keepers s else s.   (* SaveBeforeAssociations' guard *)
+
+Definition kids_create (c : cx) (kt : ty) (keepers : list mrec) (s : S) : S :=
+  commit_or_rollback c (hooks_phase c PAfterCreate (stmt_create c
+    (save_keepers c kt keepers (hooks_phase c PBeforeCreate (begin_tx c s))))).
+
+Definition save_kids_keepers (c : cx) (t : ty) (vals : list mrec) (kt : ty) (keepers : list mrec) (s : S) : S :=
+  match vals with
+  | [] => s
+  | _ =>
+    let cc := assoc_cx c t TKids false in
+    let s0 := mkS (s_k s) (s_err s) (s_tr s) vals [] 0 (s_pool s) (s_ntx s) false (s_tbl s) (s_snap s) in
+    let s1 := kids_create cc kt keepers s0 in
+    let e := if is_nil (s_err s1) then s_err s else s_err s ++ s_err s1 in
+    mkS (s_k s1) e (s_tr s1) (s_recs s) (s_pay s) (s_payS s) (s_pool s1) (s_ntx s1) (s_started s) (s_tbl s1) (s_snap s1)
+  end.
 
 Definition is_struct (c : cx) : bool := match sh_cont (c_shape c) with CStruct => true | _ => false end.
 
@@ -389,7 +413,8 @@ Definition save_before_assoc (c : cx) (a : assocs) (s : S) : S :=
 Definition save_after_assoc (c : cx) (a : assocs) (s : S) : S :=
   if is_nil (s_err s)
   then save_assoc c (snd (a_tys a)) TPets false (a_pets a)
-         (save_assoc c (snd (fst (a_tys a))) TKids false (a_kids a) s)
+         (if is_nil (a_keepers a) then save_assoc c (snd (fst (a_tys a))) TKids false (a_kids a) s
+          else save_kids_keepers c (snd (fst (a_tys a))) (a_kids a) (a_keeper_ty a) (a_keepers a) s)
   else s.
 
 (* ------------------------------------------------------------------ Delete with Select(<has-many>), Preload *)
